@@ -12,10 +12,12 @@ import (
 	"time"
 
 	"github.com/influxdata/kapacitor"
+	"github.com/influxdata/kapacitor/edge"
 	"github.com/influxdata/kapacitor/services/httpd"
 	"github.com/influxdata/kapacitor/services/storage"
 	"github.com/influxdata/kapacitor/services/task_store"
 	"github.com/influxdata/kapacitor/udf"
+	"github.com/influxdata/kapacitor/udf/agent"
 	"github.com/influxdata/kapacitor/uuid"
 	bolt "go.etcd.io/bbolt"
 
@@ -51,17 +53,18 @@ func (deadman) Global() bool            { return false }
 // oracle "the start of task <id> fails during this request" (the error surfaces from TaskMaster.StartTask).
 
 type gateSvc struct {
-	inner *kit.SinkUDFService
-	mu    sync.Mutex
-	fail  map[string]bool
+	mu   sync.Mutex
+	fail map[string]bool
 }
+
+var gateInfo = udf.Info{Wants: agent.EdgeType_STREAM, Provides: agent.EdgeType_STREAM, Options: map[string]*agent.OptionInfo{}}
 
 func (g *gateSvc) List() []string { return []string{"gate"} }
 func (g *gateSvc) Info(name string) (udf.Info, bool) {
 	if name != "gate" {
 		return udf.Info{}, false
 	}
-	return g.inner.Info("sink")
+	return gateInfo, true
 }
 func (g *gateSvc) Create(name, taskID, nodeID string, d udf.Diagnostic, abort func()) (udf.Interface, error) {
 	g.mu.Lock()
@@ -70,7 +73,7 @@ func (g *gateSvc) Create(name, taskID, nodeID string, d udf.Diagnostic, abort fu
 	if f {
 		return nil, errors.New("gate: start refused by the oracle")
 	}
-	return g.inner.Create("sink", taskID, nodeID, d, abort)
+	return &gateUDF{in: make(chan edge.Message), out: make(chan edge.Message), done: make(chan struct{}), abrt: make(chan struct{})}, nil
 }
 func (g *gateSvc) setFail(ids []string) {
 	g.mu.Lock()
@@ -80,6 +83,46 @@ func (g *gateSvc) setFail(ids []string) {
 	}
 	g.mu.Unlock()
 }
+
+// gateUDF passes every message through (kit's sinkUDF allocates its abort channel in Open, which races with a
+// stop that follows the start immediately; this one allocates everything at creation).
+type gateUDF struct {
+	in, out chan edge.Message
+	done    chan struct{}
+	abrt    chan struct{}
+	once    sync.Once
+	opened  sync.Once
+}
+
+func (u *gateUDF) Open() error {
+	u.opened.Do(func() {
+		go func() {
+			defer close(u.done)
+			defer close(u.out)
+			for m := range u.in {
+				select {
+				case u.out <- m:
+				case <-u.abrt:
+					return
+				}
+			}
+		}()
+	})
+	return nil
+}
+func (u *gateUDF) Info() (udf.Info, error)            { return gateInfo, nil }
+func (u *gateUDF) Init(options []*agent.Option) error { return nil }
+func (u *gateUDF) Abort(err error)                    { u.once.Do(func() { close(u.abrt) }) }
+func (u *gateUDF) Close() error {
+	u.Open() // a node stopped before it ran never opened the UDF: make sure the pump exists and ends
+	close(u.in)
+	<-u.done
+	return nil
+}
+func (u *gateUDF) Snapshot() ([]byte, error)     { return nil, nil }
+func (u *gateUDF) Restore(snapshot []byte) error { return nil }
+func (u *gateUDF) In() chan<- edge.Message       { return u.in }
+func (u *gateUDF) Out() <-chan edge.Message      { return u.out }
 
 // ---------------------------------------------------------------------------------------------
 // Storage service over one Bolt file, counting committed Update transactions of the task_store namespace and
@@ -168,7 +211,7 @@ func newWorld() (*world, error) {
 		return nil, err
 	}
 	w := &world{dir: dir, hs: httpdSvc()}
-	w.gate = &gateSvc{inner: &kit.SinkUDFService{Rec: kit.NewRec()}, fail: map[string]bool{}}
+	w.gate = &gateSvc{fail: map[string]bool{}}
 	if err := w.openDB(filepath.Join(dir, "kap-0.db")); err != nil {
 		return nil, err
 	}
